@@ -287,7 +287,9 @@ pub struct Interp {
 /// Prefer a trader that holds a position on `v` (4 times out of 5); deterministic in (state, knob).
 fn pick_holder(pre: &Obs, v: usize, t: u8, exclude_whale: bool) -> usize {
     let raw = (t as usize) % N_TRADERS;
-    let has = |i: usize| pre.pos[v][i].as_ref().map(|p| !p.size.is_zero()).unwrap_or(false);
+    // a flat record that still holds margin (left by an order that traded the position exactly flat, or by a 100% partial
+    // liquidation) counts: its owner can still deposit to it and withdraw from it
+    let has = |i: usize| pre.pos[v][i].as_ref().map(|p| !p.size.is_zero() || !p.margin.is_zero()).unwrap_or(false);
     if has(raw) && !(exclude_whale && raw == WHALE) {
         return raw;
     }
